@@ -4,7 +4,7 @@
 From Coq Require Import ZArith List Bool.
 From CiwV Require Import Sx Prelude.
 From CiwV.Engine Require Import State2 Engine2 Codec2.
-From CiwV.Inv Require Conserve2 Sched2 Preempt2 Renege2 Route2 Samples2 Blocking2 Servers2 Clock2 HorizonCount2 Journey2 Horizon2 Clock2r Inversion2 Journey2s Slot2.
+From CiwV.Inv Require Conserve2 Sched2 Preempt2 Renege2 Route2 Samples2 Blocking2 Servers2 Clock2 HorizonCount2 Journey2 Horizon2 Clock2r Inversion2 Journey2s Slot2 Journey2r DateSum2 Knot2.
 Import ListNotations.
 Open Scope Z_scope.
 
@@ -86,10 +86,44 @@ Definition run_jrn2_real (inp : sx) : sx :=
   match inp with
   | L [c; s; h; a] =>
     match dec_cfg c, dec_sim s (L [L []; L []; L []; L []; L []; L []]), (do l <- getL h; omap dec_rec l), (do l <- getL a; omap dec_pair l) with
-    | Some cf, Some st, Some hs, Some al => if Journey2s.scope2s cf then bit (Journey2s.jrn2s_b cf (an_of al) st hs) else A 2
+    | Some cf, Some st, Some hs, Some al =>
+      if Journey2s.scope2s cf then bit (Journey2s.jrn2s_b cf (an_of al) st hs)
+      else if Journey2r.scope2r cf then bit (Journey2.jrn2_b cf (an_of al) st hs)      (* the `reroute` option: Journey2r.v *)
+      else A 2
     | _, _, _, _ => A (-1)
     end
   | _ => A (-1)
   end.
 Theorem run_jrn2_real_sound cf st hs al : Journey2s.jrn2s_b cf (an_of al) st hs = true -> Journey2s.Jrn2s cf (an_of al) st hs.
 Proof. apply Journey2s.jrn2s_b_sound. Qed.
+Theorem run_jrn2_real_sound_r cf st hs al : Journey2.jrn2_b cf (an_of al) st hs = true -> Journey2.Jrn2 cf (an_of al) st hs.
+Proof. apply Journey2r.jrn2r_b_sound. Qed.
+
+(* C20 on stage 2 (dispatch_model 42): the hypotheses and the conclusion of DateSum2.event_step_grid / event_step_records on one REAL event:
+   L [A g; cfg; snapshot AFTER the event; the draws the event consumed; L records it wrote]
+   -> L [timetable on the grid g; the time draws on the grid; every date and duration of the snapshot on the grid; every time field of the records on the grid] *)
+Definition run_grid2 (inp : sx) : sx :=
+  match inp with
+  | L [A g; c; s; d; h] =>
+    match dec_cfg c, dec_sim s d, (do l <- getL h; omap dec_rec l) with
+    | Some cf, Some st, Some hs =>
+      L [bit (DateSum2.grid_b g cf); bit (DateSum2.drawson_b g (dr st)); bit (DateSum2.ongrid_b g cf st); bit (DateSum2.logon_b g hs)]
+    | _, _, _ => A (-1)
+    end
+  | _ => A (-1)
+  end.
+Theorem run_grid2_sound g cf st hs : DateSum2.grid_b g cf = true -> DateSum2.ongrid_b g cf st = true -> DateSum2.logon_b g hs = true ->
+  DateSum2.Grid g cf /\ DateSum2.OnGrid g st /\ DateSum2.LogOn g hs.
+Proof. intros A B C. split; [apply DateSum2.grid_b_sound; exact A|]. split; [eapply DateSum2.ongrid_b_sound; exact B|apply DateSum2.logon_b_sound; exact C]. Qed.
+
+(* C18 on stage 2 (dispatch_model 44): the hypotheses / the conclusion of Knot2.knot2_is_permanent_in_scope on a REAL snapshot and the set K of
+   nodes the harness read off it:  L [cfg; snapshot; L K] -> L [knot_scope cf K; knot2_b cf s K; noscope_b cf K s] *)
+Definition run_knot2 (inp : sx) : sx :=
+  match inp with
+  | L [c; s; k] =>
+    match dec_cfg c, dec_sim s (L [L []; L []; L []; L []; L []; L []]), getZs k with
+    | Some cf, Some st, Some K => L [bit (Knot2.knot_scope cf K); bit (Knot2.knot2_b cf st K); bit (Knot2.noscope_b cf K st)]
+    | _, _, _ => A (-1)
+    end
+  | _ => A (-1)
+  end.
